@@ -125,7 +125,7 @@ def run(ctx):
     # every sequence of clause words / statement words up to a length (SELECT clauses in every order, joins, set operations and WITH, INSERT / UPDATE / DELETE, column
     # definitions, CREATE / ALTER TABLE): what the parser does with clause words in the wrong order or twice is decided here, input by input, against the model
     import smallscope
-    n_ss = smallscope.run(ctx, ["select-clauses", "joins", "set-ops", "dml", "update-delete", "ddl-column", "ddl-create", "ddl-alter"], dialects=("HIVE",), thorough_dialects=("MYSQL", "HIVE"))
+    n_ss = smallscope.run(ctx, ["select-clauses", "joins", "set-ops", "dml", "update-delete", "ddl-column", "ddl-column-2", "ddl-index", "ddl-fk", "ddl-create", "ddl-alter"], dialects=("HIVE",), thorough_dialects=("MYSQL", "HIVE"))
     ctx.cov["rule"] += "; small-scope correspondence: every sequence up to length 3–6 over eight alphabets of clause / statement words (%d requests)" % n_ss
     pfam.conclude(ctx, search)
 
